@@ -143,6 +143,11 @@ func (lb *WeightedRandomLoadBalancer) ChooseServer(req *httpprot.Request) *Serve
 		return nil
 	}
 
+	if lb.totalWeight <= 0 {
+		// no server has a weight (validation accepts this): treat all servers as equal
+		return lb.Servers[rand.Intn(len(lb.Servers))]
+	}
+
 	randomWeight := rand.Intn(lb.totalWeight)
 	for _, server := range lb.Servers {
 		randomWeight -= server.Weight
